@@ -36,6 +36,15 @@ type Spec struct {
 func Main(spec Spec) {
 	r := vr.Start(spec.Prop)
 	cfgs := spec.Configs(r)
+	if only := os.Getenv("VERIF_ONLY_CFG"); only != "" && r.ReplayPath == "" { // development aid
+		var keep []Config
+		for _, c := range cfgs {
+			if c.P.Name == only {
+				keep = append(keep, c)
+			}
+		}
+		cfgs = keep
+	}
 	fam := map[string]bool{}
 	for _, f := range spec.Families {
 		fam[f] = true
@@ -58,7 +67,11 @@ func Main(spec Spec) {
 			go func() { time.Sleep(40 * time.Second); pprof.StopCPUProfile(); _ = f.Close() }()
 		}
 	}
-	total := r.RunSharded(vr.Workers(), func(sh vr.ShardInfo, p *vr.Partial) {
+	workers := vr.Workers()
+	if r.Quick() && workers > 8 && os.Getenv("VERIF_WORKERS") == "" {
+		workers = 8 // the quick spaces are small: more processes only re-explore shared prefixes
+	}
+	total := r.RunSharded(workers, func(sh vr.ShardInfo, p *vr.Partial) {
 		for ci := range cfgs {
 			c := cfgs[ci]
 			params := c.P
